@@ -29,7 +29,7 @@ Proof.
     + rewrite gcmd_ucmd_same. apply G.
     + rewrite gcmd_ucmd_other by exact Hne. reflexivity.
 Qed.
-Lemma Rmeta_add_cmd c H : Rmeta H (mkH (chans H) (tfl H) (cmds H ++ [c]) (woken H) (xready H) (aborted H) (log H)).
+Lemma Rmeta_add_cmd c H : Rmeta H (mkH (chans H) (tfl H) (cmds H ++ [c]) (woken H) (xready H) (aborted H) (log H) (hout H)).
 Proof.
   repeat split; simpl.
   - exists []. reflexivity.
@@ -53,6 +53,7 @@ Definition frame_meta := frame_all Rmeta Rmeta_refl Rmeta_trans Rmeta_ucmd
   (fun t H => Rmeta_same_cmds H _ eq_refl eq_refl)
   (fun H => Rmeta_same_cmds H _ eq_refl eq_refl)
   Rmeta_add_aborted
+  (fun e H => Rmeta_same_cmds H (push_hout e H) eq_refl eq_refl)
   Rmeta_add_cmd.
 
 Lemma was_aborted_mono cid H H' : cid < length (cmds H) -> Rmeta H H' -> was_aborted cid H = true -> was_aborted cid H' = true.
